@@ -161,6 +161,32 @@ META = {
                 "Known findings: c13-second-detach, c13-detach-kind, c13-peer-detach-error-lost, c13-transfer-after-remote-detach.",
         "technique": "Coq proof (state invariants over event lists, case analysis of the step function) + extracted-model-vs-engine correspondence; direct oracle on combined scripts",
     },
+    "C16": {
+        "text": "Theorems (Coq, closed). Receiving side (model Link/Receiver.v): dropping a pending recv() at any point of any history and re-issuing it yields the same "
+                "final state and the same observations as the history without the cancellation. Sending side (model Link/SendCancel.v, send() at the granularity of its "
+                "await points, any drop point per call): unless a call is dropped between two transfers of one message (only possible with a max-message-size split) the "
+                "link's output is a sequence of whole deliveries with strictly increasing tags; the deliveries begun are the messages of the calls that reached their first "
+                "transfer, once each, in call order; credit is conserved, and unless a call is dropped between taking its credit and queuing its first transfer every credit "
+                "taken begins a delivery. The two exceptions are refuted with witnesses (known findings). Both models are run against the real link every run; the txc "
+                "harness judges concrete traces directly (poll-count cancellation of send and recv).",
+        "design_ref": "DESIGN.md section 4, C16",
+        "note": "Trusted: Coq kernel, extraction, the drop-point search in the oracle driver, the harness. Partial: auto-accept recv cancellation decided by direct oracle only. "
+                "Known findings: c16-send-partial, c16-send-starved-leak, c16-recv-lost, c16-recv-starved.",
+        "technique": "Coq proof (invariants over event lists with arbitrary drop points) + extracted-model-vs-link correspondence (existential over drop points) + direct oracle",
+    },
+    "C18": {
+        "text": "Theorems (Coq, closed) about the model of the listener-side transaction manager (Txn/Manager.v), for every event list over control-link attach / closing detach, "
+                "data-link attach, declare, transactional and plain posts, commit, rollback, discharge of unknown ids or through a foreign control link, session end and transport "
+                "loss: a message posted under a transaction is delivered by no step before the commit of that transaction; the commit delivers exactly the buffered posts, in posting "
+                "order per link; rollback, loss of the control link, session end and transport loss deliver nothing now or later; declared ids are pairwise different; after a "
+                "discharge every further discharge of or post under that id is refused and delivers nothing; unknown ids likewise; plain posts are delivered at once and touch "
+                "nothing else. The model is run against the real listener every run (txnm); the controller side and the full alphabet are judged by the direct oracle (txn).",
+        "design_ref": "DESIGN.md section 4, C18",
+        "note": "Trusted: Coq kernel, extraction, scripted peers. Partial: controller side and retirements by direct oracle only. Fixed: controller calls hanging when the coordinator "
+                "detaches (bc4ca04), plain Rejected on a post lost the error (7480238), aborts lost when >128 transactions are abandoned (a8cdb59). Known findings: c18-nontx-affected, "
+                "c18-ctl-detach-zombie.",
+        "technique": "Coq proof (state invariants and history lemmas over event lists) + extracted-model-vs-listener correspondence; controller clauses by direct oracle (partial)",
+    },
     "C19": {
         "text": "Theorems (Coq, closed) about the model of the listener's SASL layer (Auth/SaslListener.v): whatever the client does, if the listener ever writes "
                 "outcome OK, the AMQP header or its open, or accept() returns a connection, the client's actions began with exactly the valid exchange; the first "
